@@ -102,13 +102,16 @@ Proof.
 Qed.
 
 (* ------------------------------------------------------------------ merge_attributes *)
-Definition dominates (r y : attr) : Prop := a_max y <= a_max r /\ a_min r <= a_min y.
+Definition dominates (r y : attr) : Prop :=
+  a_max y <= a_max r /\ a_min r <= a_min y /\ tsub (a_types y) (a_types r).
 
 Lemma dominates_refl a : dominates a a.
-Proof. split; lia. Qed.
+Proof. split; [lia|]. split; [lia|apply tsub_refl]. Qed.
 
 Lemma dominates_trans a b c : dominates a b -> dominates b c -> dominates a c.
-Proof. unfold dominates. intros [? ?] [? ?]. split; lia. Qed.
+Proof.
+  unfold dominates. intros [? [? T1]] [? [? T2]]. split; [lia|]. split; [lia|]. eapply tsub_trans; eauto.
+Qed.
 
 Lemma or_default_ge x : x <= or_default 1 x.
 Proof. unfold or_default. destruct (N.eqb_spec x 0); lia. Qed.
@@ -116,11 +119,31 @@ Proof. unfold or_default. destruct (N.eqb_spec x 0); lia. Qed.
 Lemma merge_key t s : key (merge_attributes t s) = key t.
 Proof. reflexivity. Qed.
 
+Lemma merge_types_fold q : forall src acc,
+  tmem q (fold_left (fun acc tp => if existsb (atype_eqb tp) acc then acc else acc ++ [tp]) src acc)
+  = tmem q acc || tmem q src.
+Proof.
+  induction src as [|t r IH]; intros acc; cbn [fold_left]; [cbn; rewrite orb_false_r; reflexivity|].
+  rewrite IH, (tmem_cons q t r). destruct (existsb (atype_eqb t) acc) eqn:E.
+  - apply existsb_exists in E as [u [Hu Eu]]. unfold atype_eqb in Eu.
+    apply andb_true_iff in Eu as [Eu _]. apply andb_true_iff in Eu as [Eu _]. apply str_eqb_eq in Eu.
+    destruct (str_eqb (ty_qname t) q) eqn:Q; [|reflexivity]. apply str_eqb_eq in Q.
+    assert (tmem q acc = true) as ->; [|reflexivity].
+    apply existsb_exists. exists u. split; [exact Hu|]. apply str_eqb_eq. congruence.
+  - rewrite tmem_app. cbn. rewrite orb_false_r, orb_assoc. reflexivity.
+Qed.
+
 Lemma merge_dominates_l t s : dominates (merge_attributes t s) t.
-Proof. unfold dominates, merge_attributes; cbn. pose proof (or_default_ge (a_max t)). split; lia. Qed.
+Proof.
+  unfold dominates, merge_attributes; cbn. pose proof (or_default_ge (a_max t)). split; [lia|]. split; [lia|].
+  intros q H0. rewrite merge_types_fold, H0. reflexivity.
+Qed.
 
 Lemma merge_dominates_r t s : dominates (merge_attributes t s) s.
-Proof. unfold dominates, merge_attributes; cbn. pose proof (or_default_ge (a_max s)). split; lia. Qed.
+Proof.
+  unfold dominates, merge_attributes; cbn. pose proof (or_default_ge (a_max s)). split; [lia|]. split; [lia|].
+  intros q H0. rewrite merge_types_fold, H0. apply orb_true_r.
+Qed.
 
 (* ------------------------------------------------------------------ reduce_pass *)
 Lemma reduce_pass_spec a : forall cs cur opt cs' cur' opt',
@@ -134,7 +157,7 @@ Lemma reduce_pass_spec a : forall cs cur opt cs' cur' opt',
   /\ ((exists c, In c cs /\ ~ In (key a) (keys c)) -> opt' = true).
 Proof.
   induction cs as [|c r IH]; intros cur opt cs' cur' opt' H; cbn in H.
-  - inversion H; subst. split; [constructor|]. split; [intros t E; exists t; unfold dominates; repeat split; auto; lia|].
+  - inversion H; subst. split; [constructor|]. split; [intros t E; exists t; split; [exact E|]; split; [reflexivity|apply dominates_refl]|].
     split; [intros c y []|]. split; [intros E t' E'; congruence|]. split; [auto|]. intros [c [[] _]].
   - destruct (find_idx c a) as [pos|] eqn:F.
     + destruct (nth_error c pos) as [x|] eqn:N.
@@ -190,15 +213,15 @@ Qed.
 
 (* every entry survives, possibly with a smaller min_occurs *)
 Definition persists (res out : list attr) : Prop :=
-  forall r, In r res -> exists r', In r' out /\ key r' = key r /\ a_max r' = a_max r /\ a_min r' <= a_min r.
+  forall r, In r res -> exists r', In r' out /\ key r' = key r /\ a_max r' = a_max r /\ a_min r' <= a_min r /\ a_types r' = a_types r.
 
 Lemma persists_refl l : persists l l.
 Proof. intros r H. exists r. repeat split; auto; lia. Qed.
 
 Lemma persists_trans a b c : persists a b -> persists b c -> persists a c.
 Proof.
-  intros H1 H2 r Hr. destruct (H1 r Hr) as [r1 [I1 [K1 [M1 L1]]]]. destruct (H2 r1 I1) as [r2 [I2 [K2 [M2 L2]]]].
-  exists r2. repeat split; auto; try congruence; lia.
+  intros H1 H2 r Hr. destruct (H1 r Hr) as [r1 [I1 [K1 [M1 [L1 T1]]]]]. destruct (H2 r1 I1) as [r2 [I2 [K2 [M2 [L2 T2]]]]].
+  exists r2. split; [exact I2|]. split; [congruence|]. split; [congruence|]. split; [lia|congruence].
 Qed.
 
 Lemma persists_min0 l : persists l (set_last_min0 l).
@@ -283,9 +306,9 @@ Proof.
         destruct (Hy c y Hc Hyc (eq_sym Ek) NDy) as [t' [Et' Dt']].
         assert (In t' res1) by (unfold res1; rewrite Et'; apply in_or_app; right; left; reflexivity).
         assert (P1 : persists res1 res2) by (unfold res2; destruct opt; [apply persists_min0|apply persists_refl]).
-        destruct (P1 t' H) as [t2 [I2 [K2' [M2 L2]]]]. destruct (O2 t2 I2) as [t3 [I3 [K3 [M3 L3]]]].
+        destruct (P1 t' H) as [t2 [I2 [K2' [M2 [L2 T2]]]]]. destruct (O2 t2 I2) as [t3 [I3 [K3 [M3 [L3 T3]]]]].
         exists t3. split; [exact I3|]. split; [rewrite K3, K2', (Kcur t' Et'); exact Ek|].
-        destruct Dt' as [D1 D2]. split; lia.
+        destruct Dt' as [D1 [D2 D3]]. split; [lia|]. split; [lia|]. rewrite T3, T2. exact D3.
       * (* a later key: the attr is still in its class *)
         assert (Ne : key y <> key a) by (intros E; apply Ha; rewrite <- E; exact Hk).
         assert (Hc' : exists c', In c' cs' /\ In y c').
@@ -312,7 +335,7 @@ Proof.
                  { unfold res2, res1. destruct (set_last_min0_spec (res ++ [x])) as [[E' _]|[r0 [a0 [E' ->]]]].
                    - destruct res; discriminate.
                    - apply app_inj_tail in E' as [<- <-]. apply in_or_app. right. left. reflexivity. }
-                 cbn in L2. assert (r2 = r').
+                 destruct L2 as [L2 _]. cbn in L2. assert (r2 = r').
                  { eapply NoDup_keys_inj; [exact O1|exact I2|exact Hr'|]. rewrite K2'. exact Er. }
                  subst. lia.
         -- left. apply in_keys in Hr1 as [r0 [H0 E0]]. exists r0. split; [exact H0|congruence].
@@ -479,15 +502,62 @@ Proof.
     + apply IH; assumption.
 Qed.
 
+(* cleanup_class / filter_types: a type survives unless its name is one of the removable datatypes *)
+Notation removable_q := removable_qname.
+
+Definition dominates_c (r y : attr) : Prop :=
+  a_max y <= a_max r /\ a_min r <= a_min y
+  /\ (forall q, tmem q (a_types y) = true -> tmem q (a_types r) = true \/ removable_q q = true).
+
+Lemma tmem_filter_keep q p l :
+  (forall u, In u l -> ty_qname u = q -> p u = true) -> tmem q l = true -> tmem q (filter p l) = true.
+Proof.
+  intros Hp H. unfold tmem in *. apply existsb_exists in H as [u [Hu Eu]]. apply existsb_exists. exists u.
+  split; [|exact Eu]. apply filter_In. split; [exact Hu|]. apply Hp; [exact Hu|]. apply str_eqb_eq. exact Eu.
+Qed.
+
+Lemma is_datatype_in_removable members u :
+  (forall m, In m members -> In m (filter_always ++ filter_when_many)) ->
+  is_datatype_in members u = true -> removable_q (ty_qname u) = true.
+Proof.
+  intros Hm H. unfold is_datatype_in in H. apply andb_true_iff in H as [_ H]. apply existsb_exists in H as [m [H1 H2]].
+  unfold removable_qname. apply existsb_exists. exists m. split; [apply Hm; exact H1|exact H2].
+Qed.
+
+Lemma filter_types_keeps q l : tmem q l = true -> tmem q (filter_types l) = true \/ removable_q q = true.
+Proof.
+  intros H. destruct (removable_q q) eqn:R; [right; reflexivity|left].
+  unfold filter_types.
+  set (t1 := unique_types l).
+  set (t2 := filter (fun t => negb (is_datatype_in filter_always t)) t1).
+  set (t3 := if (1 <? length t2)%nat then filter (fun t => negb (is_datatype_in filter_when_many t)) t2 else t2).
+  assert (H1 : tmem q t1 = true) by (unfold t1; rewrite tmem_unique; exact H).
+  assert (H2 : tmem q t2 = true).
+  { unfold t2. apply tmem_filter_keep; [|exact H1]. intros u _ Eu. apply negb_true_iff.
+    destruct (is_datatype_in filter_always u) eqn:D; [|reflexivity].
+    apply is_datatype_in_removable in D; [congruence|]. intros m Hm. apply in_or_app. left. exact Hm. }
+  assert (H3 : tmem q t3 = true).
+  { unfold t3. destruct (1 <? length t2)%nat; [|exact H2]. apply tmem_filter_keep; [|exact H2]. intros u _ Eu. apply negb_true_iff.
+    destruct (is_datatype_in filter_when_many u) eqn:D; [|reflexivity].
+    apply is_datatype_in_removable in D; [congruence|]. intros m Hm. apply in_or_app. right. exact Hm. }
+  destruct t3 as [|u r]; [discriminate|exact H3].
+Qed.
+
+Lemma dominates_cleanup r y : dominates r y -> dominates_c (cleanup_attr r) y.
+Proof.
+  intros [D1 [D2 D3]]. split; [exact D1|]. split; [exact D2|]. intros q Hq. cbn. apply filter_types_keeps. apply D3. exact Hq.
+Qed.
+
 Theorem reduce_classes_spec all :
   Forall (fun c => NoDup (keys (c_attrs c))) all ->
   forall c, In c all ->
   exists r, find_class (reduce_classes all) (c_qname c) = Some r
     /\ NoDup (keys (c_attrs r))
     /\ (c_mixed c = true -> c_mixed r = true)
-    /\ (forall y, In y (c_attrs c) -> exists ry, In ry (c_attrs r) /\ key ry = key y /\ dominates ry y)
+    /\ (forall y, In y (c_attrs c) -> exists ry, In ry (c_attrs r) /\ key ry = key y /\ dominates_c ry y)
     /\ (forall ry, In ry (c_attrs r) -> ~ In (key ry) (keys (c_attrs c)) -> a_min ry = 0)
-    /\ (forall ry, In ry (c_attrs r) -> exists c' y, In c' all /\ c_qname c' = c_qname c /\ In y (c_attrs c') /\ key y = key ry).
+    /\ (forall ry, In ry (c_attrs r) -> exists c' y, In c' all /\ c_qname c' = c_qname c /\ In y (c_attrs c') /\ key y = key ry)
+    /\ (exists f, In f all /\ c_qname f = c_qname c /\ c_nillable r = c_nillable f /\ c_ns r = c_ns f).
 Proof.
   intros ND c Hc. destruct (group_by_spec all) as [G1 [G2 G3]].
   destruct (G3 c Hc) as [g [Hg Hcg]]. destruct (G2 _ _ Hg) as [Hne Hq].
@@ -503,13 +573,14 @@ Proof.
   { apply Forall_forall. intros l Hl. apply in_map_iff in Hl as [c0 [<- H0]]. rewrite Forall_forall in ND. apply ND.
     apply (Hq c0 H0). }
   destruct (reduce_attributes_spec _ NDg) as [R1 [R2 [R3 R4]]].
-  split; [cbn; rewrite cleanup_keys; exact R1|]. split; [|split; [|split]].
+  split; [cbn; rewrite cleanup_keys; exact R1|]. split; [|split; [|split; [|split]]].
   - intros Hm. change (existsb c_mixed g = true). apply existsb_exists. exists c. auto.
   - intros y Hy. destruct (R2 (c_attrs c) y) as [ry [I1 [K1 D1]]]; [apply in_map; exact Hcg|exact Hy|].
-    exists (cleanup_attr ry). split; [cbn; apply in_map; exact I1|]. split; [exact K1|exact D1].
+    exists (cleanup_attr ry). split; [cbn; apply in_map; exact I1|]. split; [exact K1|apply dominates_cleanup; exact D1].
   - intros ry Hry Hn. cbn in Hry. apply in_map_iff in Hry as [r0 [<- H0]]. cbn.
     apply (R3 r0 H0 (c_attrs c)); [apply in_map; exact Hcg|exact Hn].
   - intros ry Hry. cbn in Hry. apply in_map_iff in Hry as [r0 [<- H0]].
     destruct (R4 r0 H0) as [l [y [Hl [Hy Ky]]]]. apply in_map_iff in Hl as [c' [<- Hc']].
     exists c', y. destruct (Hq c' Hc') as [Q1 Q2]. repeat split; auto.
+  - exists f. destruct (Hq f (or_introl eq_refl)) as [Q1 Q2]. repeat split; auto.
 Qed.
